@@ -99,6 +99,10 @@ DerRun(b) == DerIter(b, Start(b))
 
 Trailing == {"outer-trailing", "inner-trailing"}
 Readable(run)    == run.ph = "done"
+\* NOT an encoding of two integers under any reading of X.690, lenient (BER) or strict (DER): a tag is wrong, or a
+\* length announces more octets than its container holds (the blob for the SEQUENCE: "trunc-seq"; the SEQUENCE for an
+\* INTEGER: "trunc-int"), or an INTEGER is missing.  Whatever "well-formed" is taken to mean, such a blob is not.
+Unreadable(run)  == run.ph = "fail"
 StrictValid(run) == run.ph = "done" /\ run.dev = {}
 HasTrailing(run) == run.ph = "done" /\ run.dev \cap Trailing # {}
 
